@@ -203,9 +203,15 @@ def e2e_cases(draw):
         # ('{mp}' is replaced by the world's module prefix when the case is executed: full dotted layer names)
         'layer': draw(pats((lnames or ['LA']) + ['{mp}layers.%s' % n for n in lnames], ['UnitTests', 'layers', 'zope',
                                                                                           'zope.testrunner.layer.UnitTests'])),
-        'all': True,
         'verbose': draw(st.integers(0, 1)),
     }
+    # (the worlds declare no levels, so every spelling of the level options selects every test: filters and level
+    # options are independent of each other)
+    lv = draw(st.sampled_from(['all', 'all', 'none', 0, -1, 1, 3]))
+    if lv == 'all':
+        opts['all'] = True
+    elif lv != 'none':
+        opts['at_level'] = lv
     # modules in packages, packages searched again through --package-path (the -m filter sees the full dotted name)
     for m in spec['modules']:
         pkg = draw(st.sampled_from([None, None, 'pk', 'pk.sub']))
